@@ -405,6 +405,16 @@ mod taylor {
         }
     }
 
+    /// Verification hooks: the two private branches of `exp_5_taylor`.
+    #[cfg(piecewise_polynomial_verif)]
+    pub fn verif_exp_5_tail_taylor(x: f64) -> f64 {
+        exp_5_tail_taylor(x)
+    }
+    #[cfg(piecewise_polynomial_verif)]
+    pub fn verif_exp_5_tail_anal(x: f64) -> f64 {
+        exp_5_tail_anal(x)
+    }
+
     #[cfg(test)]
     #[test]
     fn exp_tail_tailor_ref() {
@@ -425,6 +435,20 @@ mod taylor {
         assert_approx_eq!(exp_5_taylor(1.0), 9.948495125711903e-3, diff);
         assert_approx_eq!(exp_5_taylor(1.5), 1.0963169756452968e-2, diff);
         assert_approx_eq!(exp_5_taylor(2.0), 1.2158003091582829e-2, diff);
+    }
+}
+
+/// Verification hooks: expose the private exponential-tail kernels.
+#[cfg(piecewise_polynomial_verif)]
+pub mod verif_hooks_log {
+    pub fn exp_5_taylor(x: f64) -> f64 {
+        super::taylor::exp_5_taylor(x)
+    }
+    pub fn exp_5_tail_taylor(x: f64) -> f64 {
+        super::taylor::verif_exp_5_tail_taylor(x)
+    }
+    pub fn exp_5_tail_anal(x: f64) -> f64 {
+        super::taylor::verif_exp_5_tail_anal(x)
     }
 }
 
